@@ -1,4 +1,4 @@
-import FitModel.Csv
+import FitModel.CsvSpec
 import Driver.ValCodec
 -- @family csv Drv.Csv.hCsv
 -- @family csvarith Drv.Csv.hCsvArith
@@ -77,6 +77,37 @@ def showLine (withValues : Bool) : Line → String
 
 def stripExpanded (m : Message) : Message := { m with fields := m.fields.filter (!·.isExpanded) }
 
+def field? (impl key : String) : Option String :=
+  ((impl.splitOn " ").filter (· ≠ "")).findSome? fun t => stripPrefix? t (key ++ "=")
+
+/-- C19 evaluated on the implementation's answer: within `CsvUnambiguous` the conversion must not panic or fail, every
+line must have the header's column count (no more than it with the trim option), the sequences must be as many as the
+files, and the messages written back must be the expected ones -/
+def propCsv (o : Opts) (files : List (List Message)) (impl : String) : String :=
+  if !csvUnambiguousB o files then "n/a" else
+  if impl.startsWith "panic" then "fail:panic" else
+  if field? impl "pre" != some "ok" then "n/a" else
+  match field? impl "hdr", field? impl "cols", field? impl "defcols" with
+  | some hdr, some cols, some defcols =>
+    let colsOK := if o.trim then
+        (match cols.splitOn "-", hdr.toNat? with
+         | [_, mx], some h => (mx.toNat?.getD (h + 1)) ≤ h && defcols == "le"
+         | _, _ => false)
+      else cols == s!"{hdr}-{hdr}" && (defcols == s!"{hdr}-{hdr}")
+    if !colsOK then "fail:columns" else
+    if field? impl "back" != some "ok" then "fail:convert-error" else
+    if field? impl "seq" != some (toString files.length) then "fail:sequences" else
+    match impl.splitOn " w=" with
+    | [_, rest] =>
+      match rest.splitOn " rt=" with
+      | [w, _] =>
+        match (splitFiles ((w.splitOn " ").filter (· ≠ ""))).mapM (·.mapM parseMsg) with
+        | some back => if back == expected o files then "ok" else "fail:roundtrip"
+        | none => "fail:unparsable"
+      | _ => "fail:unparsable"
+    | _ => "fail:unparsable"
+  | _, _, _ => "fail:unparsable"
+
 def hCsv : Handler := fun r =>
   match r.args with
   | o :: rest =>
@@ -102,8 +133,15 @@ def hCsv : Handler := fun r =>
         | .ok b =>
           let rt := if b.seqs == files.map (·.map stripExpanded) then "same" else "diff"
           pre ++ s!" back=ok seq={b.seq} w=" ++ " / ".intercalate (b.seqs.map fun f => " ".intercalate (f.map printMsg)) ++ s!" rt={rt}"
-      | .kf => "-"
-      | _ => "n/a"
+      | .kf =>
+        let ids := (if hasInt64Scalar files then ["KF-C19-1"] else []) ++
+          (if lines.any (fun l => extraCommas l != 0) then ["KF-C19-2"] else []) ++
+          (if redefinesDesc files then ["KF-C19-3"] else []) ++
+          (if hasMfgRangeName files then ["KF-C19-4"] else []) ++
+          (if hasPayloadNaN files then ["KF-C19-5"] else [])
+        if ids.isEmpty then "-" else ",".intercalate ids
+      | .prop => propCsv opts files r.impl
+      | .spec => "n/a"
     | _, _ => if r.mode == .model then "bad-op" else if r.mode == .kf then "-" else "n/a"
   | [] => if r.mode == .model then "bad-op" else if r.mode == .kf then "-" else "n/a"
 
